@@ -114,3 +114,32 @@ pub fn to_svg_with_settings(ascii: &str, _settings: &Settings) -> String {
 pub fn to_svg_with_override_size(ascii: &str, _settings: &Settings, _w: f32, _h: f32) -> String {
     to_svg_string_pretty(ascii)
 }
+
+pub mod point {
+    #[derive(Clone, Copy, PartialEq)]
+    pub struct Point {
+        pub x: f32,
+        pub y: f32,
+    }
+    impl Point {
+        /// the cell a point falls into
+        pub fn cell(&self) -> (i32, i32) {
+            ((self.x / 1.0).floor() as i32, (self.y / 2.0).floor() as i32)
+        }
+    }
+}
+
+pub mod buffer {
+    pub mod cell_buffer {
+        pub mod endorse {
+            use crate::point::Point;
+            /// C05.R3: corner test on quantised end points
+            pub fn is_rect(a: &Point, b: &Point) -> bool {
+                a.cell() == b.cell()
+            }
+            pub fn is_rounded_rect(a: &Point, b: &Point) -> bool {
+                is_rect(a, b)
+            }
+        }
+    }
+}
